@@ -75,8 +75,24 @@ def possibly_negative_stops(f: FuncInfo) -> List[dict]:
             # B clamped by A: every definition of B (or of the loop range it counts) is `min(..., A)`
             an = {x.id for x in ast.walk(a) if isinstance(x, ast.Name)}
             bdefs = [d for nm in ast.walk(b) if isinstance(nm, ast.Name) for d in rd.defs_of(nm) if d.kind != "param"]
-            clamped = bool(bdefs) and all(d.value is not None and any(
-                isinstance(c, ast.Call) and call_name(c) == "min" and an & {x.id for x in ast.walk(c) if isinstance(x, ast.Name)}
-                for c in ast.walk(d.value)) for d in bdefs)
+            def _is_clamped(e):
+                """e is, or derives from, `min(..., A)` (the clamp may have been given a name first)."""
+                if e is None:
+                    return False
+                exprs = [e] + list(rd.derives(e).exprs)
+                return any(isinstance(c, ast.Call) and call_name(c) == "min" and an & {x.id for x in ast.walk(c) if isinstance(x, ast.Name)}
+                           for x_ in exprs for c in ast.walk(x_))
+            clamped = bool(bdefs) and all(_is_clamped(d.value) for d in bdefs)
+            # B is a counter of an enclosing `while B <= M` / `while B < M` with M clamped by A
+            bn = {x.id for x in ast.walk(b) if isinstance(x, ast.Name)}
+            cur = pm.get(n)
+            while cur is not None and not clamped:
+                if isinstance(cur, ast.While) and isinstance(cur.test, ast.Compare) and len(cur.test.ops) == 1:
+                    l_, r_, op_ = cur.test.left, cur.test.comparators[0], cur.test.ops[0]
+                    if isinstance(op_, (ast.Gt, ast.GtE)):
+                        l_, r_ = r_, l_
+                    if isinstance(op_, (ast.Lt, ast.LtE, ast.Gt, ast.GtE)) and isinstance(l_, ast.Name) and l_.id in bn and _is_clamped(r_):
+                        clamped = True
+                cur = pm.get(cur)
             out.append(dict(node=n, bound=u(it.upper), ok=guarded or clamped))
     return out
